@@ -51,6 +51,17 @@ def c01(ctx):
     rep["drift"] += srep["drift"]
     rep.setdefault("drift_samples", [])
     rep["drift_samples"] += srep.get("drift_samples", [])
+    # XML-signature, WebVTT and SubRip detectors (XmlSig.tla): token strings with real offsets, replayed on the tree's detectors
+    for fam in ("xml", "vtt", "srt"):
+        xs = ctx.tlc_expect_ok("MC_XmlSig.tla", "MC_XmlSig_%s.cfg" % fam, timeout=3000, xmx="16g", tag="MC_XmlSig_" + fam)
+        rpx = os.path.join(ctx.scratch, "sig2vec_%s.json" % fam)
+        ctx.vdrive(["sig2vec", "-in", xs["out"], "-out", rpx])
+        os.remove(xs["out"])
+        xrep = ctx.report(rpx)
+        rep["violations"] += xrep["violations"]
+        rep["evaluations"] += xrep["evaluations"]
+        rep["drift"] += xrep["drift"]
+        rep["drift_samples"] += xrep.get("drift_samples", [])
     # zip layouts with the in-bounds obligations of ZipWalk.tla (DesignC01)
     z = ctx.tlc_expect_ok("MC_Zip.tla", "MC_Zip.cfg", timeout=3000, tag="MC_Zip_c01")
     os.remove(z["out"])
